@@ -108,13 +108,13 @@ HARNESSES = [
          cases=[dict(id="u%df%d" % (u, f), defines={"NB": 4, "USED": u, "FS": f}, unwind=5, tier="quick")
                 for u, f in ((3, 1), (4, 1), (4, 2), (4, 3))]),
     dict(name="blocks_sizes", file="blocks_sizes.c", label="bounded(block index<=3)",
-         timeout=300, unwind=6, nochecks=["--conversion-check"],
+         timeout=900, weight=6, unwind=6, nochecks=["--conversion-check"],
          include_dirs=["lib/sqfs/src/block_processor"],
          fp={"write_data_block": "stub_write_data_block", "*": None}),
     dict(name="super_roundtrip", file="super_roundtrip.c", label="proved", timeout=300, unwind=22,
          fp={"write_at": "stub_write_at", "read_at": "stub_read_at"}),
     dict(name="dirent_roundtrip", file="dirent_roundtrip.c", label="bounded(entries<=2,name<=2)",
-         timeout=300, unwind=4, unwindset=["c01_raw_alloc.0:10"], nochecks=["--conversion-check"],
+         timeout=900, unwind=4, weight=5, unwindset=["c01_raw_alloc.0:10"], nochecks=["--conversion-check"],
          fp={"destroy": None, "copy": None, "*": None},
          cases=[dict(id="n%d" % n, defines={"N": n}, tier="quick") for n in (0, 1)] +
                [dict(id="n2", defines={"N": 2}, tier="thorough", timeout=1500)]),
